@@ -100,7 +100,8 @@ def draw_job(rng: random.Random, prop: str, opts) -> dict:
   if family == 'sw':
     layers = rng.randint(1, 3)
   else:
-    layers = rng.choice([1, 2, 2, 3, 4, 4])
+    layers = rng.choice([1, 2, 2, 3, 4, 4] + ([5, 6, 8] if int(opts.get('max_layers', 4)) > 4
+                                               else []))
   integrator = rng.choice(INTEGRATORS)
   if opts.get('light'):
     # compile-light configurations (the C14 leg compiles one program per split)
